@@ -8,7 +8,7 @@
     decidable premise computed on every run for every documented type from the parsed TypeScript file
     and the wire shapes), every conforming document of any size and depth inhabits its type. *)
 From Coq Require Import List String Bool.
-From GM Require Import Sem.GoJson Sem.TsSem Sem.PgSim Sem.TsSim Proofs.C03 Proofs.C03g.
+From GM Require Import Base.Result Facts.GoFacts Facts.Ana Sem.GoJson Sem.TsSem Sem.PgSim Sem.TsSim Model.TsGen Proofs.C03 Proofs.C03g Proofs.C03t.
 Import ListNotations.
 Local Open Scope string_scope.
 
@@ -75,6 +75,17 @@ Theorem C03_premises_satisfiable : tsim_ok ex_tenv ex_jenv3 ex_ttable = true /\ 
   /\ conformsb ex_jenv3 8 (ShRef "Root") ex_doc3 = true /\ inhabitsb ex_tenv 12 (TRef "Root") ex_doc3 = true.
 Proof. exact ex_premises3. Qed.
 
+(** the declaration list of the generator, as a traversal (Model/TsGen.v), for every analysed program and every source
+    list on which it completes: every type name a declaration mentions is built in (number, string, boolean, unknown)
+    or declared by the list ("the file is well-formed TypeScript": no reference to an undeclared type), recursive types
+    included. Premises, decidable and evaluated on every run: the node found at a slice / map / pointer position is of
+    that kind with the element links (the faithfulness C12 checks), and no named type is called like its underlying
+    type. [F'] + 1 is the fuel of the naming function (the nesting depth of fixed arrays). *)
+Theorem C03_declaration_list_is_closed : forall pr nodes F',
+  shapes_ok nodes = true -> no_self_alias pr nodes (S F') = true ->
+  forall src ds, ts_types pr nodes (S F') src = Ok ds -> TsGen.closed ds = true.
+Proof. exact ts_types_closed. Qed.
+
 Print Assumptions C03_basic_kinds.
 Print Assumptions C03_nullable_slice.
 Print Assumptions C03_nullable_map.
@@ -84,3 +95,4 @@ Print Assumptions C03_union_shapes.
 Print Assumptions C03_struct_properties.
 Print Assumptions C03_documents_inhabit.
 Print Assumptions C03_premises_satisfiable.
+Print Assumptions C03_declaration_list_is_closed.
